@@ -203,3 +203,61 @@ func runCorrelated(g *hc.Gen, scratch string, thorough bool, cs *childStats, sig
 		}
 	}
 }
+
+// Stateful / non-deterministic built-ins, the functions with an evaluation path of their own, list
+// aggregates ordered by expressions over derived tables with many groups, and prepared statements
+// (EXECUTE … USING literal and non-literal replace values, named placeholders, cursors for prepared
+// statements): everything that reaches state shared through the context / the session by all workers.
+func runSpecial(g *hc.Gen, scratch string, thorough bool, cs *childStats, sigs map[string]bool) {
+	repo, err := os.MkdirTemp(scratch, "c13spec-")
+	if err != nil {
+		panic(err)
+	}
+	defer os.RemoveAll(repo)
+	makeTables(g, repo, 700, 220)
+	derived := "(SELECT id, grp, val, txt, id % 180 AS g FROM big) t"
+	stmts := []struct{ name, sql string }{
+		{"rand", "SELECT id, RAND() FROM big"},
+		{"rand_range", "SELECT id, RAND(1, 100) FROM big WHERE RAND() < 2 ORDER BY RAND()"},
+		{"now", "SELECT id, NOW(), DATETIME_FORMAT(NOW(), '%Y') FROM big WHERE NOW() IS NOT NULL"},
+		{"json_object", "SELECT id, JSON_OBJECT(txt, id), JSON_OBJECT() FROM big"},
+		{"listagg_within", "SELECT g, LISTAGG(txt, ',') WITHIN GROUP (ORDER BY val + 1), JSON_AGG(val) WITHIN GROUP (ORDER BY txt || 'x' DESC, id) FROM " + derived + " GROUP BY g"},
+		{"listagg_within_plain", "SELECT grp, LISTAGG(DISTINCT txt, ',') WITHIN GROUP (ORDER BY txt), COUNT(DISTINCT val) FROM big GROUP BY grp"},
+		{"agg_expr_derived", "SELECT g, SUM(val * 2), MEDIAN(val + id), MAX(UPPER(txt)) FROM " + derived + " GROUP BY g HAVING COUNT(*) > 0 ORDER BY g"},
+		{"listagg_analytic", "SELECT id, LISTAGG(txt, '') OVER (PARTITION BY g ORDER BY val + 1) FROM " + derived},
+		{"prepared_literal", "PREPARE p1 FROM 'SELECT id, val + ? FROM big WHERE grp < ?'; EXECUTE p1 USING 50, 4; EXECUTE p1 USING 1.5, 9"},
+		{"prepared_variable", "DECLARE @pv := 3; PREPARE p2 FROM 'SELECT id, val + ?, txt || ? FROM big WHERE grp < ? ORDER BY val * ?'; EXECUTE p2 USING @pv, @pv || 'x', @pv + 2, @pv - 5; EXECUTE p2 USING @pv + 1, 'lit', (SELECT MAX(grp) FROM small), 2"},
+		{"prepared_named", "DECLARE @pn := 7; PREPARE p3 FROM 'SELECT id, :a + val, :b FROM big WHERE val > :a - 100 AND EXISTS (SELECT 1 FROM small s WHERE s.id = big.id + :c)'; EXECUTE p3 USING @pn * 2 AS a, (SELECT COUNT(*) FROM small) AS b, @pn AS c"},
+		{"prepared_group", "DECLARE @pg := 2; PREPARE p4 FROM 'SELECT grp, SUM(val * ?), COUNT(*) FROM big WHERE id % ? = 0 GROUP BY grp HAVING COUNT(*) > ?'; EXECUTE p4 USING @pg + 1, @pg, @pg - 2"},
+		{"prepared_cursor", "DECLARE @pc := 11; PREPARE p5 FROM 'SELECT id, val * ? FROM big WHERE grp <> ? ORDER BY id'; DECLARE c5 CURSOR FOR p5; OPEN c5 USING @pc + 1, @pc - 9; DECLARE @x; DECLARE @y; FETCH LAST c5 INTO @x, @y; CLOSE c5; OPEN c5 USING 3, (SELECT MIN(grp) FROM small); FETCH FIRST c5 INTO @x, @y; CLOSE c5; DISPOSE CURSOR c5"},
+		{"prepared_update", "DECLARE @pu := 5; PREPARE p6 FROM 'UPDATE big SET val = val + ?, txt = txt || ? WHERE grp = ?'; EXECUTE p6 USING @pu, 'u' || @pu, @pu - 3"},
+	}
+	rot := 0
+	for _, st := range stmts {
+		cpus := []int{[]int{2, 4, 8}[rot%3]}
+		rot++
+		if thorough {
+			cpus = []int{2, 4, 8}
+		}
+		for _, cpu := range cpus {
+			pr := hc.NewProc(repo)
+			sql := fmt.Sprintf("SET @@CPU TO %d; %s;", cpu, st.sql)
+			_, err := pr.Exec(sql)
+			pr.Close()
+			cs.Queries++
+			kind := "special:" + st.name
+			cs.Kinds[kind]++
+			if err != nil {
+				cs.Errors[fmt.Sprintf("%s:%d", kind, hc.ErrCode(err))]++
+				if len(cs.Samples) < 12 {
+					cs.Samples = append(cs.Samples, "ERROR "+kind+": "+strings.SplitN(err.Error(), "\n", 2)[0])
+				}
+			}
+			sig := fmt.Sprintf("%s/cpu%d", kind, cpu)
+			if !sigs[sig] {
+				sigs[sig] = true
+				cs.Sigs = append(cs.Sigs, sig)
+			}
+		}
+	}
+}
